@@ -134,11 +134,8 @@ func (v *Vue) Render(w io.Writer, filename string, data any) error {
 		return err
 	}
 
-	// Merge front-matter data into the provided data (front-matter is authoritative)
-	dataMap := toMapData(data)
-	for k, v := range frontMatter {
-		dataMap[k] = v
-	}
+	// Merge front-matter data over the provided data (front-matter is authoritative)
+	dataMap := mergeFrontMatter(toMapData(data), frontMatter)
 
 	// Create context for v-once attribute tracking
 	vueCtx := NewVueContext(filename, &VueContextOptions{
@@ -148,6 +145,19 @@ func (v *Vue) Render(w io.Writer, filename string, data any) error {
 
 	// Use renderNodesWithContext with pre-configured context
 	return v.renderNodesWithContext(vueCtx, w, dom)
+}
+
+// mergeFrontMatter returns a new map holding data overlaid with frontMatter.
+// The caller's map is never written to: it may be shared between concurrent renders.
+func mergeFrontMatter(data, frontMatter map[string]any) map[string]any {
+	merged := make(map[string]any, len(data)+len(frontMatter))
+	for k, v := range data {
+		merged[k] = v
+	}
+	for k, v := range frontMatter {
+		merged[k] = v
+	}
+	return merged
 }
 
 // loadCachedWithFrontMatter returns cached template nodes and front-matter data, or loads and caches them.
@@ -232,11 +242,8 @@ func (v *Vue) RenderFragment(w io.Writer, filename string, data any) error {
 	}
 	assignSeenAttrs(filename, dom)
 
-	// Merge front-matter data into the provided data (front-matter is authoritative)
-	dataMap := toMapData(data)
-	for k, v := range frontMatter {
-		dataMap[k] = v
-	}
+	// Merge front-matter data over the provided data (front-matter is authoritative)
+	dataMap := mergeFrontMatter(toMapData(data), frontMatter)
 
 	// Create context for v-once attribute tracking
 	vueCtx := NewVueContext(filename, &VueContextOptions{
